@@ -20,7 +20,7 @@ res=""
 for id in $CHECKS; do
   VERIF_REPO="$S" VERIF_OUT="$O" timeout 1800 /verif/check "$id" --tier quick > "$O/$id.log" 2>&1
   rc=$?
-  site=$(grep -m1 'site=' "$O/$id.log" | cut -c1-160 | tr '"' "'")
+  site=$(grep -m1 'site=' "$O/$id.log" | cut -c1-160 | tr '"' "'" | tr -d '\\')
   res="$res{\"check\":\"$id\",\"exit\":$rc,\"first\":\"$site\"},"
 done
 ok=0
